@@ -189,6 +189,9 @@ func runCheck(prop, tier string, only []string, writeEvidence bool) int {
 			if tier == "quick" && (h.WallS == 0 || h.WallS > 420) {
 				h.WallS = 420 // the quick tier never spends more than 7 minutes in one harness
 			}
+			if tier == "thorough" && (h.WallS == 0 || h.WallS > 1500) {
+				h.WallS = 1500 // the thorough tier never spends more than 25 minutes in one harness (a budget stop is reported, never counted as success)
+			}
 			var hk []knownFinding
 			for _, k := range known {
 				if k.Property == prop {
